@@ -132,6 +132,13 @@ def gen_c09(rng, t, thorough):
                 tags["x%d" % len(ops)] = cls + ":1"
                 ops.append("read/%s/b" % reg["name"])
                 react.append([ev_data(get_resp(reg["addr"], rng.bytes(rng.below(3)), flag=flag))])
+            for flag, cls in ((1, "Eunknownid"), (2, "Enotsupported"), (4, "Eparameter")):
+                # the error frame arrives on the second/third attempt, after a discarded response
+                tags["x%d" % len(ops)] = cls + ":1"
+                ops.append("read/%s/b" % reg["name"])
+                for _ in range(rng.below(2) + 1):
+                    react.append([ev_data(rng.choice([get_resp((reg["addr"] + 1) % 65536, [1]), get_resp(reg["addr"], [1], bad_chk=1), b"noise\r\n"]))])
+                react.append([ev_data(get_resp(reg["addr"], rng.bytes(rng.below(3)), flag=flag))])
             tags["x%d" % len(ops)] = "Eother:1"
             ops.append("read/%s/i" % reg["name"])
             react += [[] for _ in range(8)]            # silence: gives up after eight tries
@@ -240,6 +247,21 @@ def gen_c10(rng, t, thorough):
                 if pl:
                     mk("c10-sublist-cancel", hm, rng_order, "c%d" % (rng.below(len(pl)) + 1), "s")
                     mk("c10-sublist-fail", hm, rng_order, "-", "s", fail_at=rng.below(len(pl)))
+        # histories on one API object: a complete run, then a second run with a failure at position k
+        full = plan(15, "all")
+        ks2 = range(len(full)) if thorough else sorted(set([0, 1, len(full) - 1] + [i for i, r in enumerate(full) if r["kind"] != 1][:8]))
+        for k in ks2:
+            for variant in ("s", "m"):
+                react = connect_react(dev)
+                for r in full:
+                    react.append([ev_data(get_resp(r["addr"], good_value(rng, r, t)))])
+                for i, r in enumerate(full):
+                    if i == k:
+                        react.append([ev_data(get_resp(r["addr"], [], flag=rng.choice([1, 2, 4])))])
+                        break
+                    react.append([ev_data(get_resp(r["addr"], good_value(rng, r, t)))])
+                out.append(ACase("c10-second-run", ["connect", "stream/15/all/-/%s" % variant, "stream/15/all/-/%s" % variant], react,
+                                 {"dev": dev, "expect_n1": len(full), "expect_end1": "ok", "expect_n2": k, "expect_end2": "ERR"}, cfg=rng.below(4)))
         mk("c10-empty", 15, [], "-", "s")
         mk("c10-empty", 15, [], "b", "s")
     return out
